@@ -38,7 +38,7 @@ RULE = ("Kruskal tensors with 1-4 modes (1-way included), mode sizes 1-4, ranks 
         "the histories and ~25 % of the single-step normalize / arrange / tolist / fixsigns(other) / score cases run on data scaled by powers of two "
         "(weights and / or single factors times 2^-24 .. 2^24; for exact N-th roots 2^-N*j), compared with purely relative (raw entries) and "
         "max-relative (sums) tolerances. fixsigns(other): pyttb is compared with the literal column loop (Model/C08Loop.v) and the loop with the "
-        "one-shot model exactly; references with MORE components than the receiver are sent too (open finding C08-N2)")
+        "one-shot model exactly; references with FEWER, AS MANY and MORE components than the receiver (former finding C08-N2, repaired)")
 CORRESPONDENCE_ONLY = ["score: the congruence / penalty matrix (np.abs(A.T @ B), products, 1 - |la-lb|/max) is an executable Qc model compared per "
                        "case (best_perm and best_score, whenever the greedy choice is pinned = no tie among free cells); the THEOREMS cover the "
                        "greedy loop on an arbitrary matrix (permutation, greedy choice, score sum) and the final arrange(permutation); that the "
@@ -53,8 +53,8 @@ CORRESPONDENCE_ONLY = ["score: the congruence / penalty matrix (np.abs(A.T @ B),
                        "normal form w.r.t. numpy's own norm: the theorems assume the norm oracle satisfies nrm_spec (positively homogeneous, even, "
                        "zero on zero columns; instantiated and proved for the exact 1-norm over Qc); np.linalg.norm itself is tied by the "
                        "per-case evaluation of unit columns / zero weights on pyttb's result"]
-NOTES = ["C08-N2 (open): fixsigns(other) with a reference of MORE components than the receiver raises IndexError (the loop runs over the "
-         "reference's components and indexes the receiver's columns); model = the loop restricted to the components that have a counterpart",
+NOTES = ["C08-N2 (fixsigns(other) with a reference of MORE components than the receiver: IndexError) is repaired in /repo 8ac87f0: the loop "
+         "model runs over range(min(RA, RB)), the loop theorems have no rank hypothesis, such references are sent on every run unattributed",
          "A-29 (fixsigns(other) odd flips), A-22 (fixsigns(other) normalised `other` in place) and A-45 (arrange accepted non-permutations) are "
          "repaired in /repo: the model IS the repaired pairing rule, fixsigns(other) must leave `other` untouched (compared per case), no trigger "
          "or witness remains; theorem C08_invariant_arrange_perm requires is_perm, the generator only sends permutations"]
@@ -69,29 +69,20 @@ EXPLANATION = ("Invariance theorems hold for every norm oracle that is positive 
 
 
 # ----------------------------------------------------------------------------------------------------------------
-# open findings: trigger = exactly the input class, witness = replay on pyttb
+# no open finding: A-29 and C08-N2 are repaired in /repo (6e8137b, 8ac87f0); their witnesses are ordinary regression cases
+# (REGRESSION below), nothing is attributed any more
 # ----------------------------------------------------------------------------------------------------------------
-def _fso_more_components(c):
-    return c.op == "fixsigns_other" and len(c.args["w2"]) > len(c.args["w"])
-
-
-def _witness_n2():
-    import warnings
-    import numpy as np
-    import pyttb as ttb
-    A = ttb.ktensor([np.array([[1.0], [2.0]]), np.array([[3.0], [4.0]])], np.array([1.0]))
-    B = ttb.ktensor([np.array([[1.0, -2.0], [2.0, 1.0]]), np.array([[3.0, 1.0], [4.0, -1.0]])], np.array([1.0, 2.0]))
-    try:
-        with warnings.catch_warnings():
-            warnings.simplefilter("ignore")
-            A.fixsigns(B)
-    except IndexError as ex:
-        return f"rank-1 receiver, rank-2 reference: IndexError: {ex}"
-    return None
-
-
-TRIGGERS = {"fixsigns_other_more_components": _fso_more_components}
-WITNESSES = {"C08-N2": _witness_n2}
+TRIGGERS = {}
+WITNESSES = {}
+# former witnesses, sent on every run (op, args)
+REGRESSION = [
+    # C08-N2: rank-1 receiver, rank-2 reference (IndexError before 8ac87f0)
+    ("fixsigns_other", {"w": [1], "f": [[[3], [4]], [[3], [4]]], "w2": [1, 2], "f2": [[[4, -4], [3, 3]], [[-3, 4], [-4, -3]]]}),
+    ("fixsigns_other", {"w": [1], "f": [[[3], [4]], [[3], [4]]], "w2": [1, 2], "f2": [[[-3, -4], [-4, 3]], [[-4, 4], [-3, -3]]],
+                        "lay": ["C", "V"], "lay2": ["C", "C"]}),
+    # A-29: identity factors against their negatives, three negative correlations per component
+    ("fixsigns_other", {"w": [1, 1], "f": [[[1, 0], [0, 1]]] * 3, "w2": [1, 1], "f2": [[[-1, 0], [0, -1]]] * 3}),
+]
 
 
 # ----------------------------------------------------------------------------------------------------------------
@@ -280,8 +271,8 @@ def gen_cases(rng, tier):
             for pat in pats:
                 if not big and N >= 3 and RA > 1 and rng.random() < 0.5:
                     continue
-                if RB > RA and rng.random() < (0.5 if big else 0.8):
-                    continue                # a reference with MORE components than the receiver (open finding C08-N2)
+                if RB > RA and N >= 3 and not big and rng.random() < 0.5:
+                    continue                # (RB > RA: a reference with MORE components than the receiver, former finding C08-N2)
                 c_ = gen_fixsigns_other(rng, shape, RA, RB, pat)
                 if c_ is not None:
                     cases.append(c_)
@@ -308,8 +299,8 @@ def gen_cases(rng, tier):
             k = rng.choice([0, 1, len(subs_all), rng.randint(0, len(subs_all))])
             marked = sorted(rng.sample(range(len(subs_all)), k))
             cases.append(Case("mask", {"w": w, "f": f, "marked": [subs_all[q] for q in marked],
-                                       "sparse": k > 0 and rng.random() < 0.5}, nt(w, shape) and k > 0))
-            # (an sptensor mask without stored entries makes ktensor.mask raise IndexError — outside C08's text, noted in progress)
+                                       "sparse": rng.random() < 0.5}, nt(w, shape) and k > 0))
+            # (an sptensor mask WITHOUT stored entries raised IndexError before /repo 63e1be0; sent like every other mask now)
     # ---- memory layouts: every single-step case is run on F-contiguous factors, or (about half of them) with factors that the
     #      user assigned as C-contiguous arrays / non-contiguous views
     for c_ in cases:
@@ -334,6 +325,9 @@ def gen_cases(rng, tier):
                 a_["sc"] = sc
             except c08_hist.Inexact:
                 pass
+    # ---- witnesses of repaired findings as ordinary regression cases
+    for op_, args_ in REGRESSION:
+        cases.append(Case(op_, {k_: (list(v_) if isinstance(v_, list) else v_) for k_, v_ in args_.items()}, True))
     # ---- multi-step histories over the op alphabet (layouts, aliasing of operands, inputs already in normal form, symmetrize)
     import sys
     cases += c08_hist.gen_hist(rng, sys.modules[__name__], tier)
